@@ -107,6 +107,12 @@ def cases(tier):
             yield {"kind": "stream", "sel": "ev { x }", "custom": {"Obj.x": "async"}, "n": n, "mode": "immediate", "resolver": "sync", "none_at": k}
         for mode in ("falsy", "falsy-deferred"):
             yield {"kind": "stream", "sel": "ev { x }", "custom": {"Obj.x": "async"}, "n": n, "mode": mode, "resolver": "async"}
+    # an event that fails as a whole (unexpected exception) after a field error was recorded; the consumer keeps
+    # pulling: the later events' results must carry nothing of the failed event
+    for n in (2, 3):
+        for custom in ({"Obj.x": "sync", "Obj.y": "sync"}, {"Obj.x": "async", "Obj.y": "async"}):
+            for mode in ("deferred", "immediate"):
+                yield {"kind": "stream", "sel": "ev { x y }", "custom": custom, "n": n, "mode": mode, "resolver": "sync", "keep_pulling": True}
     for name in ("two-fields", "two-fields-fragment", "typename-only", "no-subscription-resolver", "query-operation", "mutation-operation", "blocking-runtime", "threadpool-runtime"):
         yield {"kind": "refusal", "name": name}
 
@@ -240,6 +246,18 @@ def _body(case, overrides, ch):
                                  initial_value=INITIAL, operation_name=case.get("operation_name"),
                                  instrumentation=H.RecInstr(world, "I0"))
         out = []
+        if case.get("keep_pulling"):
+            it = stream.__aiter__()
+            for _ in range(case["n"] + 3):
+                try:
+                    res = await it.__anext__()
+                except StopAsyncIteration:
+                    break
+                except Exception as e:  # noqa  the failure of one event; the consumer asks for the next one
+                    out.append(["raised", type(e).__name__])
+                else:
+                    out.append(_obs_result(res))
+            return out
         async for res in stream:
             kept.append(res)
             out.append(_obs_result(res))
@@ -258,7 +276,7 @@ def _body(case, overrides, ch):
     return {"status": status, "results": value if status == "ok" else None, "exc": repr(value) if status == "exc" else None,
             "pulls": world.source.pulls, "trace": loop.trace,
             # results observed again after the stream ended: a yielded result must not change afterwards
-            "results_at_end": [_obs_result(r) for r in kept] if status == "ok" else None,
+            "results_at_end": [_obs_result(r) for r in kept] if status == "ok" and not case.get("keep_pulling") else None,
             "subscribe_calls": [[e[1] is INITIAL, e[2]] for e in subs],
             # field hooks of the instrumentation passed to subscribe(): per event, every start has its end
             "field_hooks": [sorted(e[3] for e in world.log if e[0] == "hook" and e[2] == "field_start"),
@@ -295,7 +313,13 @@ def _reference(case, overrides):
         world = H.World(overrides)
         world.event_index = k
         root = None if case.get("none_at") == k else _event(k)
-        res = process_graphql_query(schema, doc, root=root, context=world, executor_cls=BlockingExecutor, validators=[], variables=case.get("variables"))
+        try:
+            res = process_graphql_query(schema, doc, root=root, context=world, executor_cls=BlockingExecutor, validators=[], variables=case.get("variables"))
+        except RuntimeError as e:
+            if not case.get("keep_pulling"):
+                raise
+            out.append(["raised", type(e).__name__])
+            continue
         out.append(_obs_result(res))
     return out
 
@@ -319,8 +343,16 @@ def _paths(case):
 
 
 def _failure_sets(case, tier):
-    yield {}
     paths = _paths(case)
+    if case.get("keep_pulling"):
+        for k in range(case["n"]):
+            for p1 in paths:
+                yield {"%d|%s" % (k, p1): "boom"}
+                for p2 in paths:
+                    if p1 != p2:
+                        yield {"%d|%s" % (k, p1): "err", "%d|%s" % (k, p2): "boom"}
+        return
+    yield {}
     sites = [(k, p) for k in range(case["n"]) for p in paths]
     for k, p in sites:
         for o in ("err", "null"):
@@ -371,7 +403,7 @@ def _compare_subscribe(obs, case):
     if not calls[0][0]:
         return "initial-value-not-forwarded", "subscription resolver did not receive the initial value as root"
     fh = obs.get("field_hooks")
-    if fh is not None and not (case.get("overrides_present")) and fh[0] != fh[1]:
+    if fh is not None and not case.get("keep_pulling") and fh[0] != fh[1]:  # unexpected exceptions abort the event: outside the hook contract
         return "field-hooks-unbalanced", "field_start fired for %s but field_end for %s" % (fh[0], fh[1])
     if calls[0][1] != _expected_sub_args(case):
         return "subscription-arguments", "subscription resolver got %s expected %s" % (calls[0][1], _expected_sub_args(case))
